@@ -1,6 +1,7 @@
 """C20 - writing a document and parsing it back preserves shapes and paint."""
 import ast
 
+from ..flow import deleted_keys
 from ..model import AnalysisError, NotConst, attr_chain, call_name, if_chain, stmts_in
 from .c03 import SHAPE_TAGS, keys_read
 
@@ -222,8 +223,11 @@ def viewport(ctx, fn, branches):
     # R20.5
     ub = body["Use"]
     removed = set()
+    for k, node, d, kn in deleted_keys(list(ub), ctx.m, lambda e: attr_chain(e) is not None and attr_chain(e)[-1] == "attrib"):
+        if k is not None:
+            removed.add(k)
     for s in stmts_in(ub):
-        if isinstance(s, ast.For) and isinstance(s.iter, ast.Tuple) and "del xml_tree.attrib[key]" in ast.unparse(s):
+        if isinstance(s, ast.For) and isinstance(s.iter, (ast.Tuple, ast.List)) and deleted_keys(s, ctx.m, lambda e: attr_chain(e) is not None and attr_chain(e)[-1] == "attrib"):
             for e in s.iter.elts:
                 try:
                     removed.add(ctx.m.const(e))
